@@ -302,8 +302,38 @@ def check_kind(chk, tier, kind, stats, model_ok, lines, checks):
     aut_f, _ = lr1dump.dump_automaton(fresh, fslot, False, sym, code)
     aut_c, _ = lr1dump.dump_automaton(cached, cslot, True, sym, code)
     path = os.path.join(common.scratch(), "c09-%s.ops" % kind)
+    extra_ops, mark_line = [], None
+    if kind == "module":
+        # ---- Parser.mark_error: (1) spec on the real code: every example of error_examples fails
+        # in the fresh parser at its marked token with its own message; (2) the Lean model of the
+        # mark_error loop applied to the *unmarked* tables must give the fresh (marked) tables
+        from compiler.util import resources
+        exs = make_parser.parse_error_examples(resources.load("compiler.front_end", "error_examples"))
+        stats["error_examples"] = len(exs)
+        enc = []
+        for k, (etoks, etok, message, text) in enumerate(exs):
+            res = fresh.parse(list(etoks))
+            ok = (res.error is not None and res.error.code == message and
+                  (res.error.token == etok if etok is not None else res.error.token.symbol == lr1.END_OF_INPUT))
+            chk.count()
+            if not ok:
+                chk.violation("input", {
+                    "input": " ".join(str(t.symbol) for t in etoks), "which": kind,
+                    "observed": "fresh parser on error example %d: %r" % (k, result_key(res, None)[:3]),
+                    "expected": "error at the marked token with message %r" % message})
+            if etok is None:
+                where = "E"
+            else:
+                j = [i for i, t in enumerate(etoks) if t is etok][0]
+                where = ("A%d" if etok is lr1.ANY_TOKEN else "T%d") % j
+            enc.append("%s|%s|%d" % (lr1dump.fld(",".join(str(sym(t.symbol)) for t in etoks)), where, code(message)))
+        unmarked = lr1.Grammar(start, list(user)).parser()
+        aut_u, _ = lr1dump.dump_automaton(unmarked, "unmarked_" + kind, False, sym, code)
+        extra_ops = [aut_u]
+        mark_line = "MARKALL unmarked_%s marked_%s %d %s" % (
+            kind, kind, 60 * max(len(e[0]) for e in exs) + 1000, lr1dump.fld(";".join(enc)))
     with open(path, "w") as f:
-        f.write("\n".join([aut_f, aut_c, lr1dump.gram_line(start, user, sym),
+        f.write("\n".join(extra_ops + [aut_f, aut_c, lr1dump.gram_line(start, user, sym),
                            lr1dump.cert_line(fresh, all_prods, sym),
                            "RULES ir " + lr1dump.rules_text(user, sym),
                            "RULES doc " + lr1dump.rules_text(doc, sym),
@@ -318,6 +348,11 @@ def check_kind(chk, tier, kind, stats, model_ok, lines, checks):
                                            py_same, user, cached_user)))
     checks.append((base + 5, "term", kind))
     chk.count(5)
+    if mark_line:
+        lines += [mark_line, "BISIM marked_%s %s" % (kind, fslot)]
+        checks.append((len(lines) - 2, "markall", (kind, len(enc))))
+        checks.append((len(lines) - 1, "markbisim", kind))
+        chk.count(2)
     # ---- correspondence on token streams: loaded parser vs cached model vs fresh real parser
     streams, muts = token_streams(tier, kind, r)
     for k, toks in enumerate(streams + muts):
@@ -430,6 +465,20 @@ def run(tier):
                         "which": payload, "model": ans,
                         "theorem_or_correspondence": "LRVALID of the freshly generated Emboss tables (C08 validator)",
                         "expected": "valid"}, found_input=False)
+            elif what in ("markall", "markbisim"):
+                # model of mark_error (Model/Merr.lean, C09_mark_error_deterministic) vs the real loop
+                stats[what] = ans
+                good = (ans == "marked %d" % payload[1]) if what == "markall" else (
+                    ans.startswith("bisim ok") and ans.endswith("identity=true"))
+                if not good:
+                    dis += 1
+                    chk.violation("correspondence", {
+                        "which": "module", "model": ans,
+                        "theorem_or_correspondence": "MARKALL (Lean model of the mark_error loop over the unmarked "
+                                                     "tables) vs the tables of make_parser.build_module_parser(); every "
+                                                     "example fails in the real parser with its own message",
+                        "expected": "the model marks all examples and arrives at the real marked tables"},
+                        found_input=False)
             elif what == "term":
                 # termination analysis of the *shipped* tables (C08_terminates applies to any table)
                 stats["terminates_" + payload] = ans
